@@ -41,6 +41,8 @@ Accesses == {
   \* ---- timers started by the last logon ----
   A("dispatch", "start / changeState: stopTimers", "Session.stopTimers", "w", {"stateMu"}, FALSE, "logout_stop_vs_all"),
   A("app",      "changeState: stopTimers", "Session.stopTimers", "w", {"stateMu"}, FALSE, "logout_stop_vs_all"),
+  A("app",      "changeState: stopTimers (Stop / Logout while the logon callback runs)", "Session.stopTimers", "w", {"stateMu"}, FALSE, "calls_during_slow_logon"),
+  A("dispatch", "start: previous timers read and replaced", "Session.stopTimers", "w", {"stateMu"}, FALSE, "calls_during_slow_logon"),
   A("timerIn",  "changeState(Disconnect): no access", "Session.stopTimers", "r", {"stateMu"}, FALSE, "silent_peer_disconnect"),
   \* ---- logon settings (identifiers stamped on every outbound message) ----
   A("dispatch", "Logon handler replaces LogonSettings", "Session.LogonSettings", "w", SettingsWriteLocks, FALSE, "logon_vs_senders"),
